@@ -18,6 +18,13 @@ C01 — every voltage step is the exact solution of the discretised cable equati
    compartments, weighted Kirchhoff rows with positive weights for the branch points — what `step_voltage_implicit_with_jaxley_spsolve`
    assembles in exact arithmetic) the pivot hypothesis is a THEOREM (`custom_solver_pivots_of_dominant`), so the solver is correct
    unconditionally (`custom_solver_correct_cable`)
+7. the ARRAY ASSEMBLY of `step_voltage_implicit_with_jaxley_spsolve` (`Model.AssembleJaxley.assembleJ`, statement by statement: scatter
+   adds through `idx.mask`, `group_and_sum`, the per-branch scatters through `par_inds` / `child_inds`): for every edge table that is
+   structurally well formed relative to indexer and schedule (`edgesWfB`, decidable, evaluated on every captured table) the ten arrays
+   DENOTE the physical edge-list system (`jaxley_arrays_denote_physical_system`: `Sat … ↔ PhysSys`, the same matrix the `jax.sparse`
+   backend assembles), they are cable-like for positive conductances (`jaxley_arrays_dominant`), hence
+   `jaxley_backend_exact` : what the code reads back IS the unique solution of the implicit-Euler cable system, with no hypothesis on
+   pivots
 The code-shaped assembly `Model.Cable.assemble` is tied to the implementation by the correspondence harness, and its
 exact rational solution is checked against `Spec.Cable` with residual exactly 0 on every generated case.
 -/
@@ -28,6 +35,7 @@ import JaxleyVerif.Lemmas.MaxPrinciple
 import JaxleyVerif.Lemmas.SolveJaxley
 import JaxleyVerif.Lemmas.SolveJaxleyGlobal
 import JaxleyVerif.Lemmas.SolveJaxleyDominant
+import JaxleyVerif.Lemmas.AssembleJaxley
 import JaxleyVerif.Gen.Kernels
 import JaxleyVerif.Spec.Cable
 import Mathlib.Tactic.Positivity
@@ -235,6 +243,39 @@ theorem custom_solver_correct_cable (ix : Idx) (sc : Sched) (st : St K) (hwf : w
 
 example : ∃ (ix : Idx) (sc : Sched) (st : St ℚ), wfB ix sc = true ∧ Dominant ix sc st := ⟨exIx, exSc, exStD, ex_wf, ex_dominant⟩
 end dominant
+
+
+/-! ## 7. from the edge table to the solution: the array assembly of `step_voltage_implicit_with_jaxley_spsolve` -/
+
+section assembly
+open JaxleyVerif.Model.SolveJaxley
+
+/-- the ten arrays the code assembles denote the physical edge-list system (any field) -/
+theorem jaxley_arrays_denote_physical_system {K : Type} [Field K] (ix : Idx) (sc : Sched) (inp : AsmIn K)
+    (hwf : wfB ix sc = true) (hew : edgesWfB ix sc inp = true) (xc z : Nat → K) :
+    Sat ix sc (assembleJ inp) (padX inp xc) z ↔ PhysSys inp xc z := assembleJ_denotes ix sc inp hwf hew xc z
+
+variable {K : Type} [Field K] [LinearOrder K] [IsStrictOrderedRing K]
+
+/-- for `dt > 0`, positive axial conductances and non-negative membrane slopes the assembled arrays are cable-like -/
+theorem jaxley_arrays_dominant (ix : Idx) (sc : Sched) (inp : AsmIn K) (hwf : wfB ix sc = true)
+    (hew : edgesWfB ix sc inp = true) (hdt : 0 < inp.dt) (hg : ∀ e ∈ inp.edges, 0 < e.2.2.2)
+    (hvt : ∀ i, i < inp.n → 0 ≤ inp.vt i) : Dominant ix sc (assembleJ inp) :=
+  assembleJ_dominant ix sc inp hwf hew hdt hg hvt
+
+/-- **the jaxley.* backends, in exact arithmetic**: assembly + triangulation + back substitution + read-back return a solution of
+the implicit-Euler cable system given by the edge table, and every solution of that system has these compartment values -/
+theorem jaxley_backend_exact (ix : Idx) (sc : Sched) (inp : AsmIn K) (hwf : wfB ix sc = true)
+    (hew : edgesWfB ix sc inp = true) (hdt : 0 < inp.dt) (hg : ∀ e ∈ inp.edges, 0 < e.2.2.2)
+    (hvt : ∀ i, i < inp.n → 0 ≤ inp.vt i) :
+    PhysSys inp (readBack inp (solve ix sc (assembleJ inp)))
+      (fun p => (solve ix sc (assembleJ inp)).bpSolves p / (solve ix sc (assembleJ inp)).bpDiags p) ∧
+    ∀ xc z, PhysSys inp xc z → ∀ i, i < inp.n → xc i = readBack inp (solve ix sc (assembleJ inp)) i :=
+  jaxley_backend_solves_physical_system ix sc inp hwf hew hdt hg hvt
+
+/-- non-vacuity: a 3-branch cell (root 2 compartments, children 1 and 2 compartments: one padding cell), 10 edges -/
+example : wfB exIx3 exSc = true ∧ edgesWfB exIx3 exSc exAsm = true := ⟨exAsm_wf, exAsm_ew⟩
+end assembly
 
 /-! ## non-vacuity -/
 example : compute_coupling_cond (1:ℝ) 1 100 100 10 10 / 1
